@@ -1,5 +1,6 @@
 """C09 -- kernel property (see coq/C09/Props.v, coq/Kernel/*.v, lib/kernel.py, lib/kprops.py)."""
 import kprops
+import crossframer
 
 LEVEL = "proof"
 RUNS = [{'label': 'aux', 'quick': 50, 'thorough': 500, 'features': {'slave': False, 'bid': False}, 'ticks': (0.125,), 'crash': 'none'}, {'label': 'auxcrash', 'quick': 15, 'thorough': 150, 'features': {}, 'ticks': (0.125,), 'crash': 'some'}]
@@ -10,5 +11,5 @@ def run(ctx):
     corpus = [(c["prog"], c["crash_at"]) for c in json.load(open(os.path.join(os.path.dirname(__file__), "..", "C06", "corpus.json")))]
     for r in RUNS:
         r["ticks"] = tuple(r["ticks"])
-    kprops.kernel_check(ctx, "C09", runs=RUNS, preds=['C09', 'C09d', 'C09o', 'C09r', 'C08', 'C06'], corpus=corpus,
-                        rule="random kernel programs whose frames at several levels carry plain auxiliaries (shared originals across framers, nested auxiliaries of auxiliaries), 'done' verbs and done-conditions; traces compared with the Coq model; implementation-only statement: an auxiliary's frames are entered only while one of its main frames is entered, enter/exit alternate. Corpus replays the open finding. Non-trivial = outline change and > 6 events")
+    kprops.kernel_check(ctx, "C09", runs=RUNS, preds=['C09', 'C09d', 'C09o', 'C09r', 'C08', 'C06'], corpus=corpus, extra_checks=[crossframer.check_cross_framer_done],
+                        rule="random kernel programs whose frames at several levels carry plain auxiliaries (shared originals across framers, nested auxiliaries of auxiliaries), 'done' verbs and done-conditions; traces compared with the Coq model; implementation-only statement: an auxiliary's frames are entered only while one of its main frames is entered, enter/exit alternate. Corpus replays the open finding. Directed family (props/C09/crossframer.py, implementation-only): all / any / named done-conditions over a frame of ANOTHER framer while the holder has a same-named frame in the opposite completion state. Non-trivial = outline change and > 6 events")
